@@ -161,12 +161,13 @@ Definition wf_op_b (w : world) (o : pop) : bool :=
   | PIpam (OConfigure conf _ delfail) => nil_b delfail && keeps_live_b w conf
   | PIpam _ => false
   | PRestart conf => keeps_live_b w conf
+  | PSyncPod p _ => wf_pod_b p
   | _ => true
   end.
 
 Lemma wf_op_b_sound w o : wf_op_b w o = true → wf_op w o.
 Proof.
-  destruct o as [e|key nodes orc fl|ns name uid node orc fl|n orc oun fl|ip orc ocl fl|k ip ocl fl|key fl|io|conf];
+  destruct o as [e|key nodes orc fl|ns name uid node orc fl|n orc oun fl|ip orc ocl fl|k ip ocl fl|sp fl|io|conf];
     cbn [wf_op_b wf_op]; try done.
   - destruct e as [p|key|key ph|key|key r|key r|name r|n]; cbn [wf_env]; try done.
     + rewrite !andb_true_iff. intros [[[H1 H2] H3] H4]. split_and!.
@@ -178,6 +179,7 @@ Proof.
       apply orb_true_iff in H. destruct H as [H|H]; apply N.eqb_eq in H; auto.
   - intros H E. by rewrite E in H.
   - apply keyobj_eqb_sound.
+  - apply wf_pod_b_sound.
   - destruct io; try done. rewrite andb_true_iff. intros [H1 H2]. split; [by destruct delfail|by apply keeps_live_b_sound].
   - apply keeps_live_b_sound.
 Qed.
